@@ -73,6 +73,7 @@ from pathlib import Path
 
 NAT, INT, BOOL, BYTES = "Nat", "Int", "Bool", "Bytes"
 STR = "List Char"                     # a Python `str` (sequence of code points)
+PYSTR = ("Rec", "String")            # a Python `str` that the model keeps as a Lean `String` (opaque: only `==` / `!=` and spec'd calls)
 CHAR1 = ("Rec", "Char")               # a one-character `str` obtained by indexing a `str` (Python has no character type)
 LEAN_KEYWORDS = {"from", "at", "end", "open", "fun", "do", "then", "have", "show", "let", "in", "if", "else", "match", "with",
                  "by", "where", "def", "theorem", "structure", "class", "instance", "return", "for", "mut", "type", "Type",
@@ -409,8 +410,10 @@ class Translator:
             return E(f"(-{self.coerce(a, INT, n)})", INT)
         if isinstance(n.op, ast.Not):
             a = self.ex(n.operand)
+            if is_list(a.ty):
+                return E(f"({a.code}.isEmpty = true)", BOOL)               # `not xs`: a list is falsy exactly when it is empty
             if a.ty not in (BOOL, None):
-                raise Unsupported(n, "`not` on a non-boolean (truthiness is outside the subset)")
+                raise Unsupported(n, "`not` on a non-boolean (truthiness is outside the subset, except `not <list>`)")
             return E(f"(¬ {a.code})", BOOL)
         raise Unsupported(n, "unary operator outside the subset")
 
@@ -476,17 +479,28 @@ class Translator:
                 return E(f"({f} {self.coerce(a, opt(t), n)} {self.coerce(b, t, n)})", t)   # `x or d`: d when x is None or 0
             self.raising = saved
         saved = getattr(self, "raising", False)
-        parts = []
+        parts, later_raises = [], False
         for k, v in enumerate(n.values):
             self.raising = False
             e = self.ex(v)
             if e.ty not in (BOOL, None):
                 raise Unsupported(v, "and/or on a non-boolean operand (truthiness is outside the subset)")
             if k > 0 and self.raising:
-                raise Unsupported(v, "operand of and/or after the first one can raise: short-circuit evaluation would matter")
+                later_raises = True
             saved = saved or self.raising
             parts.append(e.code)
         self.raising = saved
+        if later_raises:
+            # short-circuit evaluation matters: `a and b` = `b if a else False`, `a or b` = `True if a else b`, the operands after the
+            # first one in `do` blocks of their own (their `(← …)` are only run when Python evaluates the operand)
+            code = parts[-1]
+            for a in reversed(parts[:-1]):
+                if isinstance(n.op, ast.And):
+                    code = f"(← (if {a} then (do pure (decide {code})) else pure false : Py.M Bool)) = true"
+                else:
+                    code = f"(← (if {a} then pure true else (do pure (decide {code})) : Py.M Bool)) = true"
+            self.raising = True
+            return E(f"({code})", BOOL)
         sym = " ∧ " if isinstance(n.op, ast.And) else " ∨ "
         return E("(" + sym.join(parts) + ")", BOOL)
 
@@ -511,7 +525,9 @@ class Translator:
                 raise Unsupported(n, "comparison of a bool with a non-bool")
             t = join(a.ty, b.ty, n)                                        # None == 0 is simply False: compare at the joined type
             base = strip_opt(t)
-            if isinstance(base, tuple) and base[0] == "Rec":
+            if base == PYSTR:
+                pass                                                       # a Python `str` kept as a Lean `String`: equality by value
+            elif isinstance(base, tuple) and base[0] == "Rec":
                 if not (self.pure and base[1] in [v[0] for v in self.pure.enums.values()]):
                     raise Unsupported(n, f"== on {lean_ty(base)}: only enum members are compared (by identity); __eq__ of other records is outside the subset")
             elif base not in (NAT, INT, BOOL, BYTES, STR):
@@ -639,6 +655,14 @@ class Translator:
                 raise Unsupported(n, "index of a str that is not provably non-negative")
             self.raising = True                                            # IndexError
             return E(f"(← Py.getItem {a.code} {i.code})", CHAR1)
+        if is_list(a.ty) and not isinstance(n.slice, ast.Slice):
+            i = self._num(self.ex(n.slice), n)
+            if i.ty is None:
+                return E("_", a.ty[1])
+            if i.ty != NAT:
+                raise Unsupported(n, "index of a list that is not provably non-negative")
+            self.raising = True                                            # IndexError
+            return E(f"(← Py.getItem {a.code} {i.code})", a.ty[1])
         if strip_opt(a.ty) != BYTES:
             raise Unsupported(n, "indexing of a non-byte-sequence")
         base = self.coerce(a, BYTES, n)
@@ -809,8 +833,8 @@ class Translator:
         if not 1 <= len(call.args) <= 2 or set(kw) - {"message"} or (len(call.args) == 2 and kw):
             raise Unsupported(st, "odxassert(condition[, message]) (an error_type is outside the subset)")
         msg = call.args[1] if len(call.args) == 2 else kw.get("message")
-        if msg is not None:
-            self._message(msg)
+        if msg is not None and self._message(msg):
+            raise Unsupported(st, "message of odxassert evaluates a subscript (it is evaluated before the condition is tested)")
         c = self.ex(call.args[0])
         if c.ty not in (BOOL, None):
             raise Unsupported(st, "odxassert on a non-boolean (truthiness is outside the subset)")
@@ -828,7 +852,8 @@ class Translator:
         kw = {k.arg: k.value for k in call.keywords}
         if not 1 <= len(call.args) <= 2 or set(kw) - {"stacklevel", "category"} or None in kw:
             raise Unsupported(st, "warnings.warn(message[, category][, stacklevel=…])")
-        self._message(call.args[0])
+        if self._message(call.args[0]):
+            raise Unsupported(st, "message of a warning evaluates a subscript")
         for extra in list(call.args[1:]) + [kw[k] for k in kw]:
             if not isinstance(extra, (ast.Name, ast.Constant)):
                 raise Unsupported(st, "warnings.warn: category / stacklevel must be a name / constant")
@@ -853,8 +878,7 @@ class Translator:
             raise Unsupported(st, "odxraise(message, error_type)")
         msg = args[0] if args else kw.get("message")
         ety = args[1] if len(args) > 1 else kw.get("error_type")
-        if msg is not None:
-            self._message(msg)
+        pre = self._message(msg) if msg is not None else []
         kind = "OdxError"
         if ety is not None:
             if not (isinstance(ety, ast.Name) and ety.id in self.ODX_ERRORS):
@@ -865,24 +889,39 @@ class Translator:
         note = "`odxraise` is rendered for strict mode (exceptions.strict_mode = True): it raises"
         if note not in self.notes:
             self.notes.append(note)
-        self.emit(ind, f"throw Py.Err.{self.ODX_ERRORS[kind]}", st)
+        for k, line in enumerate(pre):
+            self.emit(ind, line, st if k == 0 else None)
+        self.emit(ind, f"throw Py.Err.{self.ODX_ERRORS[kind]}", None if pre else st)
         return False
 
     def _message(self, m):
-        """a diagnostic text: a string literal, or an f-string over names / attribute chains (formatting those does not raise for the
-        dataclasses, enums, ints and strings of the subset); its content is not modelled"""
+        """a diagnostic text: a string literal, or an f-string over names / attribute chains / `type(e).__name__` (formatting those
+        does not raise for the dataclasses, enums, ints and strings of the subset); its content is not modelled. A subscript `xs[i]`
+        inside it IS evaluated (it can raise before the message is complete): returns the Lean statements that do so."""
+        pre = []
         if isinstance(m, ast.Constant) and isinstance(m.value, str):
-            return
+            return pre
         if isinstance(m, ast.JoinedStr):
             for part in m.values:
                 if isinstance(part, ast.Constant):
                     continue
+                if part.format_spec is not None:
+                    raise Unsupported(m, "format spec in a message")
                 v = part.value
-                while isinstance(v, ast.Attribute):
-                    v = v.value
-                if not isinstance(v, ast.Name) or part.format_spec is not None:
-                    raise Unsupported(m, "f-string over more than names / attributes")
-            return
+                while True:
+                    if isinstance(v, ast.Attribute):
+                        v = v.value
+                    elif isinstance(v, ast.Call) and isinstance(v.func, ast.Name) and v.func.id == "type" and len(v.args) == 1 \
+                            and not v.keywords and not self._module_binds("type"):
+                        v = v.args[0]
+                    else:
+                        break
+                if isinstance(v, ast.Subscript):
+                    e = self.ex(v)
+                    pre.append(f"let _ := {e.code}   -- evaluated for the message")
+                elif not isinstance(v, ast.Name):
+                    raise Unsupported(m, "f-string over more than names / attributes / type(…).__name__ / subscripts")
+            return pre
         raise Unsupported(m, "message is not a string literal")
 
     def _imported_name(self, name):
@@ -1544,6 +1583,9 @@ def translate_pure_function(src: str, func: str, spec: PureSpec, namespace: str,
         body.pop(0)
     tr.infer(body, {k: v[0] for k, v in spec.params.items()})
     if tr.pure_ret is None:
+        for st in ast.walk(ast.Module(body=body, type_ignores=[])):       # surface the reason (inference swallows it before its last round)
+            if isinstance(st, ast.Return) and st.value is not None:
+                tr.ex(st.value)
         raise Unsupported(fn, "no return type inferred")
     tr.emitting = True
     tr.scopes = [{k for k, v in spec.params.items() if v[1] is not None}, set()]
@@ -1813,13 +1855,23 @@ ODXLINK_SPEC = PureSpec(
     open_ns="OdxVerif.OdxLink")
 
 
+# `resolve_snref(target_short_name, items, expected_type)`: `items` a list of the model's `Obj`, `x.short_name` ↔ `Obj.name`
+SNREF_SPEC = PureSpec(
+    params={"target_short_name": (_S, "target_short_name"), "items": (("List", _OBJ), "items"), "expected_type": (opt(_S), "expected_type")},
+    binders="(target_short_name : String) (items : List Obj) (expected_type : Option String)",
+    attrs={("Obj", "short_name"): ("{}.name", _S)},
+    calls={(None, "isinstance"): ("(Obj.isInst {0} (some {1}))", [_OBJ, _S], BOOL, False)},
+    open_ns="OdxVerif.OdxLink")
+
+
 def render_odxlink_resolve(repo: Path) -> str:
     rel = "odxtools/odxlink.py"
     src = (Path(repo) / rel).read_text()
     a = translate_pure_function(src, "resolve", ODXLINK_SPEC, "OdxVerif.OdxLink.Gen", ["OdxVerif.Model.OdxLink", "OdxVerif.Model.PyRt"],
                                 rel, cls_name="OdxLinkDatabase")
     b = translate_pure_function(src, "resolve_lenient", ODXLINK_SPEC, "OdxVerif.OdxLink.Gen", [], rel, cls_name="OdxLinkDatabase")
-    return a + "\n" + b
+    c = translate_pure_function(src, "resolve_snref", SNREF_SPEC, "OdxVerif.OdxLink.Gen", [], rel)
+    return a + "\n" + b + "\n" + c
 
 
 def regenerate_odxlink_resolve(repo, verif):
